@@ -68,6 +68,10 @@ func oracleC04(p *Plan, res *Result, exact bool) *common.Fail {
 		if e.K == "read" {
 			read[e.Tag]++
 		}
+		if e.K == "note" && e.Note == "cleanup" && !closing && w.ph == phConnected && res.Untaken > 0 {
+			return failTrace(evs, i, "receiver-stalled", "the tunnel is open and connected (channel %d), everything has settled, yet %d frames the gateway sent are still waiting in the socket: the client has stopped taking frames, so requests with the right channel and number are neither delivered nor acknowledged",
+				w.ch, res.Untaken)
+		}
 		w.step(e)
 		if w.ph == phConnected && w.epoch != expEpoch {
 			exp, expEpoch = 0, w.epoch
@@ -169,6 +173,10 @@ func genPlanC04(rt *rapid.T, realClock bool) *Plan {
 		}
 		if rapid.IntRange(0, 40).Draw(rt, "stray-connres") == 0 {
 			g = GwStep{AfterUs: g.AfterUs, Kind: "connres-stray", Chan: rapid.SampledFrom([]string{"cur", "cur", "other"}).Draw(rt, "stray-chan"), AbsCh: rapid.IntRange(0, 253).Draw(rt, "stray-absch"), Tag: g.Tag}
+		}
+		if !c.TCP && rapid.IntRange(0, 25).Draw(rt, "stray-ack") == 0 {
+			g = GwStep{AfterUs: g.AfterUs, Kind: "ack-stray", Chan: rapid.SampledFrom([]string{"cur", "cur", "cur", "other"}).Draw(rt, "stray-ack-chan"), AbsCh: rapid.IntRange(0, 253).Draw(rt, "stray-ack-absch"),
+				Abs: rapid.SampledFrom([]int{0, 0, 1, 2, 255}).Draw(rt, "stray-ack-seq"), Status: rapid.SampledFrom([]int{0, 0, 0, 0x29}).Draw(rt, "stray-ack-status"), Tag: g.Tag}
 		}
 		if rapid.IntRange(0, reconnectOdds).Draw(rt, "reconnect") == 0 {
 			g = GwStep{AfterUs: g.AfterUs, Kind: "discreq", Chan: "cur", Tag: g.Tag}
